@@ -182,6 +182,33 @@ ISIZE_MAX = 2 ** 63 - 1
 VALUE_WRAPPERS = {'branch', 'map_err', 'ok_or', 'ok_or_else', 'try_from', 'try_into', 'from', 'into', 'unwrap', 'expect', 'unwrap_or_default'}
 
 
+def le_len(body, e, want, depth=0):
+    """is the value e provably <= the length `want` (canonical ('len', local, projs)) of a slice: e is that length, a widening cast / value-preserving
+    conversion (`usize::try_from(x).map_err(..)?`, `as u64`) of a value that is, or min(a, b) with one operand that is"""
+    if depth > 10:
+        return False
+    if e[0] in ('place', 'call'):
+        try:
+            if e[0] == 'place' and canon(body, _mk_copy(e[1])) == want:
+                return True
+            if e[0] == 'call' and e[2].dest is not None and canon(body, _mk_copy((e[2].dest[0], ()))) == want:
+                return True
+        except Exception:
+            pass
+    if e[0] == 'cast':
+        return le_len(body, e[1], want, depth + 1)
+    src = payload_source(body, e)
+    if src is not None:
+        return le_len(body, expr_of(body, src), want, depth + 1)
+    if e[0] == 'call' and (cnorm_(e[2]) in ('std::cmp::min', 'core::cmp::min') or e[2].cmethod == 'min') and len(e[2].args) == 2:
+        return any(le_len(body, expr_of(body, a2), want, depth + 1) for a2 in e[2].args)
+    if e[0] == 'place' and not e[1][1]:
+        d = unique_def(body, e[1][0])
+        if d is not None and d[2] == 'assign' and d[3].rv.r in ('use', 'cast') and d[3].rv.ops[0].place is not None:
+            return le_len(body, expr_of(body, d[3].rv.ops[0]), want, depth + 1)
+    return False
+
+
 def payload_source(body, e, depth=0):
     """if e is the success payload of a chain of value-preserving wrappers (`usize::try_from(x).map_err(..)?`), return the operand x"""
     if depth > 8:
@@ -718,14 +745,12 @@ def discharge(prog, body, s):
             e = expr_of(body, t.args[1])
             if e[0] == 'agg' and e[3].j.get('adt', '').endswith('::RangeTo') and e[3].ops:
                 end = expr_of(body, e[3].ops[0])
-                if end[0] == 'call' and (cnorm(end[2]) in ('std::cmp::min', 'core::cmp::min') or end[2].cmethod == 'min') and len(end[2].args) == 2:
-                    sl = deref_expr(body, expr_of(body, t.args[0]))
-                    if sl[0] in ('ref', 'place'):
-                        pl = norm_place_c(body, sl[1])
-                        want = ('len', pl[0], tuple((p[0], p[1]) if p[0] in ('f', 'down') else (p[0],) for p in pl[1] if p[0] != 'deref'))
-                        for a2 in end[2].args:
-                            if canon(body, a2) == want:
-                                return 'range end is min(_, len of the indexed slice)'
+                sl = deref_expr(body, expr_of(body, t.args[0]))
+                if sl[0] in ('ref', 'place'):
+                    pl = norm_place_c(body, sl[1])
+                    want = ('len', pl[0], tuple((p[0], p[1]) if p[0] in ('f', 'down') else (p[0],) for p in pl[1] if p[0] != 'deref'))
+                    if le_len(body, end, want):
+                        return 'range end is min(.., len of the indexed slice) through value-preserving conversions'
         # arr[range] / vec[i]: fixed-size arrays with constant ranges; length facts
         if len(t.args) >= 2:
             aty = t.arg_tys[0] if t.arg_tys else ''
